@@ -1230,7 +1230,7 @@ class CallCtx:
         self.oq = oq
 
     def fresh_ctx(self):
-        return (self.fr.callpath + (self.site,), tuple(self.eng.binders))
+        return (self.fr.callpath + (self.site,), tuple(("idx", u) for u in self.eng.binders))
 
     def dest_ty(self):
         return self.eng.local_ty(self.fr, self.term["dest"])
